@@ -102,7 +102,13 @@ pub async fn idxcrash_cmd(rep: &mut Report, table: &str) {
         // restarts while a segment is live: the segment is later sealed by a process that
         // hydrated its indexes from the data file
         if k == 1 || k == 8 {
-            crate::reopen(&mut w).await.expect("reopen during setup");
+            // (all index files are complete here: a failure to reopen is the property's, not the harness's)
+            if let Err(e) = crate::reopen(&mut w).await {
+                rep.violation("c06:reopen-blocked:complete-files", json!({"problem": format!("reopening a cleanly closed database with complete index files failed after transaction {id}: {e}"), "buckets": 2}), json!({"setup_step": k}));
+                shutdown_all().await;
+                let _ = std::fs::remove_dir_all(&root);
+                return;
+            }
         }
     }
     for k in 0..2u64 {
